@@ -13,6 +13,7 @@ mod fifo;
 mod gen;
 mod mcp;
 mod midas;
+mod matching;
 mod names;
 mod pack;
 mod reco;
@@ -147,6 +148,17 @@ fn main() {
         "reco" => {
             let mut run = Runner::new(&args);
             reco::run(&mut run, args.get("in"), args.num("seed", 1), args.get("tier") == Some("thorough"));
+            run.finish();
+        }
+        "match" => {
+            let mut run = Runner::new(&args);
+            if let Some(p) = args.get("in") {
+                matching::replay(&mut run, p, args.num("seed", 1), args.num("stride", 1) as usize);
+            }
+            matching::random(&mut run, args.num("seed", 1), args.num("n", 500));
+            if let Some(d) = args.get("data") {
+                matching::compose(&mut run, d, args.num("seed", 1), args.num("nsim", 10));
+            }
             run.finish();
         }
         "names" => {
